@@ -27,6 +27,8 @@ def cfgs():
     add("T12-resumed-id", srv_rsa_nt, cli_rsa, "ver=T12", "ver=T12 suites=0xc02f sid=R", resume=True)
     add("T12-resumed-ticket", srv_rsa, cli_rsa, "ver=T12", "ver=T12 suites=0xc02f sid=R tick=1", resume=True)
     add("T12-ticket-full", srv_rsa, cli_rsa, "ver=T12", "ver=T12 suites=0xc02f sid=F tick=1")
+    # the client asks for a ticket (empty SessionTicket extension), the server has no ticket keys and does not answer the extension
+    add("T12-ticket-asked-nokeys", srv_rsa_nt, cli_rsa, "ver=T12", "ver=T12 suites=0xc02f sid=F tick=1")
     add("T12-cauth", srv_rsa, cli_rsa_id, "ver=T12 cb=strict", "ver=T12 suites=0xc02f")
     add("T13-full", srv_rsa, cli_rsa, "ver=T13", "ver=T13", fam="T13")
     add("T13-full-ec-chacha", srv_ec, cli_ec, "ver=T13", "ver=T13 suites=0x1303", fam="T13")
